@@ -60,6 +60,10 @@ fi
 if [ "$MODE" = "--replay" ]; then
   timeout 600 "$REL" "$PROP" --replay "$ARG"; rc=$?
   if [ $rc -eq 0 ] && [ $DEV -eq 1 ]; then build ""; timeout 600 "$H/target/debug/runner" "$PROP" --replay "$ARG"; rc=$?; fi
+  if [ $rc -gt 2 ] && [ $rc -ne 124 ]; then
+    # a case file written by the crash triage (tools/after_crash.sh): dying again is the violation
+    case "$(basename "$ARG")" in *-crash-*) echo "violated: executing this case kills the process (status $rc)"; echo "VIOLATION property=$PROP replay=$ARG"; exit 1 ;; esac
+  fi
   [ $rc -gt 2 ] && { echo "INCONCLUSIVE: replay ended abnormally (status $rc)"; exit 2; }
   exit $rc
 fi
